@@ -296,6 +296,7 @@ def run(ctx):
     ctx.floor("diff_chain_elements", 6)
     ctx.floor("leb_orders", 3)
     ctx.floor("lookup_helpers", 11)
+    ctx.floor("passthrough", 5)
     ctx.assume("cm.packer[fmt] is struct.Struct('<'+fmt) (DalvikPacker.__getitem__; endian tag checked under C09)")
     ctx.assume("readuleb128/readuleb128p1/readsleb128 consume exactly one LEB128 value from the stream (decided under C03)")
     ctx.note("not decided: annotation, debug-info and encoded-value items; try/handler tables (C08)")
@@ -345,6 +346,7 @@ def core(ctx):
     check_header_use(ctx, md)
     from ..dexlookup import check_lookups
     check_lookups(ctx, md.repo, md.folder)
+    check_passthrough(ctx, md)
 
 
 # ---- (1a) layouts ----------------------------------------------------------------
@@ -923,6 +925,137 @@ def check_header_use(ctx, md):
     ctx.count("getter_roles")
 
 
+# ---- resolvers pass the file's strings through unmodified ----------------------------------------
+class _CMInterp(DexInterp):
+    """evaluates one ClassManager method; calls of the other accessors on self stay opaque (cm.<name>(args))"""
+
+    def __init__(self, *a, target=None, cm_cls=None, **k):
+        super().__init__(*a, **k)
+        self.target, self.cm_cls = target, cm_cls
+
+    def _h_method(self, it, recv, name, args, kwargs, e, func):
+        if isinstance(recv, Obj) and recv.cls is self.cm_cls and name != self.target and self.cm_cls.lookup(name) is not None:
+            return Sym("cm." + name, *args)
+        return super()._h_method(it, recv, name, args, kwargs, e, func)
+
+
+def contains(v, t):
+    if v == t:
+        return True
+    if isinstance(v, Sym):
+        return any(contains(a, t) for a in v.args)
+    if isinstance(v, (list, tuple)):
+        return any(contains(a, t) for a in v)
+    if isinstance(v, Lin):
+        return any(contains(a, t) for a in v.terms)
+    return False
+
+
+def judge_passthrough(ctx, f, what, values, allowed, sentinels, describe):
+    """every returned value is one of `allowed` (identity) or a sentinel constant; an allowed term wrapped in further
+    operations is a violation; anything else is outside the fragment"""
+    n_ok = 0
+    for v in values:
+        if any(v == a for a in allowed):
+            n_ok += 1
+            ctx.check("passthrough", what, True, f, "%s return value" % f.qualname, "", detail="%s returns %s unmodified" % (what, show(v)[:80]))
+            continue
+        if isinstance(v, str) and v in sentinels:
+            continue
+        core = next((a for a in allowed if contains(v, a)), None)
+        if core is not None:
+            ctx.check("passthrough", what, False, f, "%s: value modified before it is returned" % f.qualname,
+                      "%s must hand out %s unmodified; it returns %s (a call / formatting / slicing is applied to the string of the file)" % (
+                          what, describe, show(v)[:160]))
+            continue
+        raise AnalysisError("%s returns %s: neither the pass-through value nor a documented sentinel (shape outside the fragment)" % (what, show(v)[:100]))
+    return n_ok
+
+
+def cm_returns(md, cm_cls, name, extra_attrs=None):
+    f = cm_cls.lookup(name)
+    if f is None:
+        raise AnalysisError("anchor vanished: ClassManager.%s" % name)
+    params = f.params()[1:]
+
+    def run(asg):
+        it = _CMInterp(md.repo, md.folder, asg=dict(asg), inline_module=None, target=name, cm_cls=cm_cls)
+        slf = Obj(cm_cls, "self")
+        return it.call_function(f, [Sym("param", p) for p in params], recv=slf)
+
+    vals = []
+    for asg, r in explore(run, max_paths=256):
+        if isinstance(r, Raised):
+            continue
+        vals.append(r)
+    if not vals:
+        raise AnalysisError("ClassManager.%s raises on every abstract path" % name)
+    # constant returns inside exception handlers (not reached by the abstract run)
+    handler_consts = []
+    for n in walk_no_nested(f.node):
+        if isinstance(n, ast.ExceptHandler):
+            for x in ast.walk(n):
+                if isinstance(x, ast.Return) and x.value is not None:
+                    if isinstance(x.value, ast.Constant) and isinstance(x.value.value, str):
+                        handler_consts.append(x.value.value)
+                    else:
+                        raise AnalysisError("ClassManager.%s: exception handler returns a non-constant (shape outside the fragment)" % name)
+    return f, params, vals + handler_consts
+
+
+def check_passthrough(ctx, md):
+    cmi = CMInfo(md.repo, md.folder)
+    cm_cls = cmi.cls
+    # get_string: the hooked value stored for idx, or get_raw_string(idx)
+    f, params, vals = cm_returns(md, cm_cls, "get_string")
+    idx = Sym("param", params[0])
+    hooked = [v for v in vals if isinstance(v, Sym) and v.op == "index" and isinstance(v.args[0], Sym) and v.args[0].op == "attr"
+              and v.args[0].args[0] == "self" and v.args[1] == idx]
+    n = judge_passthrough(ctx, f, "ClassManager.get_string", vals, hooked + [Sym("cm.get_raw_string", idx)], set(),
+                          "the hooked value of idx or get_raw_string(idx)")
+    ctx.require(n > 0, "ClassManager.get_string never returns get_raw_string(idx)")
+    ctx.check("passthrough", "ClassManager.get_string falls back to the raw string", any(v == Sym("cm.get_raw_string", idx) for v in vals) or
+              any(contains(v, Sym("cm.get_raw_string", idx)) for v in vals), f, "get_string raw fallback",
+              "ClassManager.get_string never consults get_raw_string(idx)")
+    ctx.count("passthrough")
+    # get_raw_string: StringDataItem.get() of the item at the data offset of string id idx
+    f, params, vals = cm_returns(md, cm_cls, "get_raw_string")
+    idx = Sym("param", params[0])
+    table = Sym("attr", "self", cmi.mangled(cmi.table_attr))
+    sid = Sym("index", Sym("index", table, cmi.members["STRING_ID_ITEM"]), idx)
+    off = Sym("call", Sym("attr", sid, "get_string_data_off"))
+    sides = [a for a, sec in cmi.side_attrs.items() if sec == "STRING_DATA_ITEM"]
+    allowed = [Sym("call", Sym("attr", Sym("index", Sym("attr", "self", cmi.mangled(a)), off), "get")) for a in sides]
+    judge_passthrough(ctx, f, "ClassManager.get_raw_string", vals, allowed, {"AG:IS: invalid string"},
+                      "StringDataItem.get() of the item at string_ids[idx].string_data_off")
+    ctx.count("passthrough")
+    # get_type: the string of the descriptor index
+    f, params, vals = cm_returns(md, cm_cls, "get_type")
+    idx = Sym("param", params[0])
+    judge_passthrough(ctx, f, "ClassManager.get_type", vals, [Sym("cm.get_string", Sym("cm.get_type_ref", idx))], {"AG:ITI: invalid type"},
+                      "get_string(<descriptor string index of type idx>)")
+    ctx.count("passthrough")
+    # StringDataItem.get hands out the decoded data of the item (decoder itself: third-party mutf8, C06 n/a)
+    # get_kind(cm, Kind.STRING / RAW_STRING, v)
+    gk = md.m.functions.get("get_kind")
+    ctx.require(gk is not None and gk.cls is None, "anchor vanished: get_kind")
+    ctx.analysed(gk)
+    kinds = md.folder.enum_members(ctx.mod(DEX_TYPES).cls("Kind"))
+    for k in ("STRING", "RAW_STRING"):
+        ctx.require(k in kinds, "anchor vanished: Kind.%s" % k)
+
+        def run(asg, k=k):
+            it = DexInterp(md.repo, md.folder, asg=dict(asg))
+            return it.call_function(gk, [Sym("cm"), kinds[k], Sym("param", "value")])
+
+        vals = [r for asg, r in explore(run) if not isinstance(r, Raised)]
+        ctx.require(vals, "get_kind(Kind.%s) raises on every abstract path" % k)
+        val = Sym("param", "value")
+        judge_passthrough(ctx, gk, "get_kind(Kind.%s)" % k, vals, [Sym("cm.get_string", val), Sym("cm.get_raw_string", val)], set(),
+                          "cm.get_string(value)")
+        ctx.count("passthrough")
+
+
 # ---------------------------------------------------------------------------
 # thorough tier: in-memory mutation adequacy
 def _swap_targets(fnode, pred):
@@ -989,6 +1122,7 @@ def thorough(ctx):
     breaking.append(("EncodedField.reload: name <- type slot", lambda: _swap_index_consts(fn("EncodedField.reload"))))
     breaking.append(("DEX.get_class: == replaced by `in`", lambda: _eq_to_in(fn("DEX.get_class"))))
     breaking.append(("DEX.get_encoded_field_descriptor: producer key order", lambda: _swap_binop_operands(fn("DEX.get_encoded_field_descriptor"))))
+    breaking.append(("ClassManager.get_string: raw string post-processed", lambda: _wrap_last_return(fn("ClassManager.get_string"))))
     benign.append(("rename private attribute MethodIdItem.name_idx_value", lambda: _rename_attr(m.cls("MethodIdItem").node, "name_idx_value", "_nm_cache")))
     benign.append(("rename private attribute ClassDefItem.sname", lambda: _rename_attr(m.cls("ClassDefItem").node, "sname", "_super_name")))
     benign.append(("reorder independent statements in FieldIdItem.reload", lambda: _swap_stmts(fn("FieldIdItem.reload"), 0, 2)))
@@ -1048,6 +1182,25 @@ def thorough(ctx):
     if noisy:
         raise AnalysisError("rule fires on behaviour-preserving edits: %s" % noisy)
     ctx.require(total >= 8 and btotal >= 3, "mutation anchors vanished (%d breaking, %d benign applicable)" % (total, btotal))
+
+
+def _wrap_last_return(fnode):
+    rets = [n for n in ast.walk(fnode) if isinstance(n, ast.Return) and n.value is not None]
+    if not rets:
+        return None
+    r = max(rets, key=lambda n: n.lineno)
+    old = r.value
+    new = ast.Call(func=ast.Attribute(value=old, attr="strip", ctx=ast.Load()), args=[], keywords=[])
+    ast.copy_location(new, old)
+    ast.fix_missing_locations(new)
+    new._parent = r
+    new.func._parent = new
+    r.value = new
+
+    def undo():
+        r.value = old
+        old._parent = r
+    return undo
 
 
 def _eq_to_in(fnode):
